@@ -28,8 +28,9 @@ class Hole(Edit):
         self.old, self.new, self.count, self.why, self.kind, self.optional = old, new, count, why, kind, optional
     def apply(self, text, ctx):
         n = text.count(self.old)
-        if n == 0 and self.optional:      # the text the hole stands for is not there: the function is verified as it is written
-            return text
+        if (n == 0 and self.optional) or self.count is None:      # optional / "wherever it occurs": where the text the hole stands for is not there, the function is verified as it is written
+            self.found = n
+            return text.replace(self.old, self.new)
         if n != self.count:
             raise ExtractError(f"{ctx}: hole anchor matched {n}x (want {self.count}): {self.old[:70]!r}")
         return text.replace(self.old, self.new)
@@ -114,6 +115,173 @@ class HoistClosure(Edit):
     def describe(self):
         return f"rewrite: closure argument `{self.head.strip()} …` of `{self.macro_start.strip()} …` bound to a local `{self.name}` and given a contract ({self.why})"
 
+class InlineHelper(Edit):
+    """A call of a helper function that the unit does not know (typically: a change moved part of a function under contract into a
+    new helper next to it) is replaced by the helper's body, mechanically:
+        helper(a1, a2)   ==>   { let (p1, p2): (T1, T2) = (a1, a2); let vx_inlined: Ret = { <body of helper> }; vx_inlined }
+    (arguments evaluated once, left to right, in the caller's scope, before the parameters are bound: the meaning of the call).
+    Only helpers without generics, `return`, `?`, recursion or macros that could hide one of them are inlined; `self.helper(..)` is
+    inlined when the helper takes `self` and the caller is a method of the same impl. Anything else raises ExtractError (undecided).
+    The body then is verified as part of the caller, against the caller's contract."""
+    kind = "rewrite"
+    def __init__(self, file, name, impl_of=None):
+        self.file, self.name, self.impl_of = file, name, impl_of
+        src = source(file)
+        d = src.find_fn(name, impl_of, None, 0)
+        if d["body_open"] is None: raise ExtractError(f"{file}:{name}: no body to inline")
+        sig = src.text[d["kw"]:d["body_open"]]
+        self.body = src.text[d["body_open"]:d["end"]]
+        self.sha = hashlib.sha256(self.body.encode()).hexdigest()[:12]
+        ss = Source(sig)
+        code = ss.code
+        if ss.s(code[2]) != "(": raise ExtractError(f"{file}:{name}: generic helper, not inlined")
+        close = ss.match[code[2]]
+        params_text = sig[ss.toks[code[2]][2]:ss.toks[close][1]]
+        rest = sig[ss.toks[close][2]:].strip()
+        self.ret = rest[2:].strip() if rest.startswith("->") else None
+        if self.ret and re.search(r"\bwhere\b|\bimpl\b", self.ret): raise ExtractError(f"{file}:{name}: return type not nameable, not inlined")
+        self.params, self.takes_self = [], False
+        for ptxt in _split_top(params_text, ","):
+            ptxt = ptxt.strip()
+            if not ptxt: continue
+            if re.fullmatch(r"&?\s*(mut\s+)?self", ptxt):
+                self.takes_self = True; continue
+            parts = _split_top(ptxt, ":", first_only=True)
+            if len(parts) != 2: raise ExtractError(f"{file}:{name}: parameter `{ptxt}` not understood")
+            self.params.append((parts[0].strip(), parts[1].strip()))
+        if re.search(r"\breturn\b", self.body):
+            self.body = _eliminate_early_returns(self.body)
+            self.returns_rewritten = True
+        bs = Source(self.body)
+        for k in bs.code:
+            t = bs.s(k)
+            if bs.toks[k][0] == "ident" and t in ("return", "await", "yield", name): raise ExtractError(f"{file}:{name}: `{t}` in the helper's body, not inlined")
+            if bs.toks[k][0] == "punct" and t == "?": raise ExtractError(f"{file}:{name}: `?` in the helper's body, not inlined")
+            if bs.toks[k][0] == "lifetime": raise ExtractError(f"{file}:{name}: lifetime / label in the helper's body, not inlined")
+        self.n = 0
+    def _site(self, text):
+        s = Source(text); code = s.code
+        for ci in range(len(code) - 2, -1, -1):
+            k = code[ci]
+            if s.toks[k][0] != "ident" or s.s(k) != self.name or s.s(code[ci + 1]) != "(": continue
+            prev = s.s(code[ci - 1]) if ci > 0 else ""
+            if prev == "fn": continue
+            start = s.toks[k][1]
+            if self.takes_self:
+                if not (ci >= 2 and prev == "." and s.s(code[ci - 2]) == "self"): continue
+                if ci >= 3 and s.s(code[ci - 3]) == ".": continue      # x.self? not a receiver we understand
+                start = s.toks[code[ci - 2]][1]
+            elif prev in (".", ":"):
+                continue
+            o = code[ci + 1]; c = s.match[o]
+            return start, s.toks[c][2], text[s.toks[o][2]:s.toks[c][1]]
+        return None
+    def apply(self, text, ctx):
+        for _ in range(64):
+            site = self._site(text)
+            if site is None: break
+            a, b, argtext = site
+            args = [x.strip() for x in _split_top(argtext, ",", exprs=True) if x.strip()]
+            if len(args) != len(self.params): raise ExtractError(f"{ctx}: call of {self.name} with {len(args)} arguments, the helper has {len(self.params)} parameters")
+            typed = not any(re.search(r"\bimpl\b", t) for _, t in self.params)
+            if not args: bind = ""
+            elif len(args) == 1: bind = f"let {self.params[0][0]}" + (f": {self.params[0][1]}" if typed else "") + f" = {args[0]}; "
+            else: bind = "let (" + ", ".join(p for p, _ in self.params) + ")" + (": (" + ", ".join(t for _, t in self.params) + ")" if typed else "") + " = (" + ", ".join(args) + "); "
+            res = f"let vx_inlined: {self.ret} = {self.body}; vx_inlined" if self.ret else self.body
+            text = text[:a] + "{ " + bind + res + " }" + text[b:]
+            self.n += 1
+        return text
+    returns_rewritten = False
+    def describe(self):
+        return (f"rewrite: {self.n} call(s) of the helper {self.file}::{self.name}, which the unit does not list, replaced by its body [sha256 {self.sha}] (arguments bound to the parameter names first"
+                + ("; its early returns `if c { return v; } rest` / `let p = e else { return v; }; rest` rewritten to `if c { v } else { rest }` / `match e { p => { rest }, _ => v }`" if self.returns_rewritten else "") + ")")
+
+def _eliminate_early_returns(block):
+    """`{ stmts }` with early returns at statement level, rewritten without `return` (same value on every path):
+         if C { return V; } REST                  ==>  if C { V } else { REST }
+         let P = E else { return V; }; REST       ==>  match E { P => { REST }, _ => V }
+       applied from the first such statement on, recursively to REST. Statements in front of them are kept. Any `return` in another
+       position is left in place (the caller of this function then refuses to inline)."""
+    s = Source(block); code = s.code
+    assert s.s(code[0]) == "{" and s.match[code[0]] == code[-1]
+    def tok(ci): return s.s(code[ci])
+    def pos(ci): return s.toks[code[ci]]
+    def ret_block(o_ci):
+        """code index of `{` whose content is exactly `return [V] [;]` -> text of V, else None"""
+        c_ci = code.index(s.match[code[o_ci]])
+        if tok(o_ci + 1) != "return": return None
+        end = c_ci - 1 if tok(c_ci - 1) == ";" else c_ci
+        v = block[pos(o_ci + 1)[2]:pos(end)[1] if end != c_ci else pos(c_ci)[1]].strip()
+        if end == c_ci: v = block[pos(o_ci + 1)[2]:pos(c_ci)[1]].strip()
+        if re.search(r"\breturn\b", v) or ";" in _strip_nested(v): return None
+        return v or "()"
+    def rec(ci, end_ci):
+        """text of the statements code[ci:end_ci] (inside the block), early returns rewritten"""
+        start = ci
+        while ci < end_ci:
+            t = tok(ci)
+            if t == "if":
+                j = ci + 1
+                while j < end_ci and tok(j) != "{":
+                    j = code.index(s.match[code[j]]) + 1 if tok(j) in ("(", "[") else j + 1
+                if j < end_ci:
+                    close = code.index(s.match[code[j]])
+                    v = ret_block(j)
+                    if v is not None and not (close + 1 < end_ci and tok(close + 1) == "else"):
+                        cond = block[pos(ci)[2]:pos(j)[1]].strip()
+                        rest = rec(close + 1, end_ci)
+                        return block[pos(start)[1]:pos(ci)[1]] + f"if {cond} {{ {v} }} else {{ {rest} }}"
+            if t == "let":
+                # let PAT = EXPR else { return V; };
+                j, eq, els = ci + 1, None, None
+                while j < end_ci and tok(j) != ";":
+                    if tok(j) == "=" and eq is None and tok(j + 1) != "=": eq = j
+                    if tok(j) == "else" and tok(j + 1) == "{": els = j
+                    j = code.index(s.match[code[j]]) + 1 if tok(j) in ("(", "[", "{") else j + 1
+                if eq is not None and els is not None and j < end_ci and code.index(s.match[code[els + 1]]) == j - 1:
+                    v = ret_block(els + 1)
+                    if v is not None:
+                        pat = block[pos(ci)[2]:pos(eq)[1]].strip(); expr = block[pos(eq)[2]:pos(els)[1]].strip()
+                        if ":" not in _strip_nested(pat):
+                            rest = rec(j + 1, end_ci)
+                            return block[pos(start)[1]:pos(ci)[1]] + f"match {expr} {{ {pat} => {{ {rest} }}, _ => {v} }}"
+                ci = j + 1; continue
+            # skip to the end of this statement: the next `;` at this level (block-like statements without one run on into the next)
+            while ci < end_ci and tok(ci) != ";":
+                ci = code.index(s.match[code[ci]]) + 1 if tok(ci) in ("(", "[", "{") else ci + 1
+            ci += 1
+        return block[pos(start)[1]:pos(end_ci)[1]] if start < end_ci else ""
+    return "{ " + rec(1, len(code) - 1) + " }"
+
+def _strip_nested(text):
+    """text with the contents of brackets removed (to look for separators at the top level only)"""
+    out, depth = [], 0
+    for kind, a, b in scan(text):
+        ch = text[a:b]
+        if kind == "punct" and ch in "([{": depth += 1
+        elif kind == "punct" and ch in ")]}": depth -= 1
+        elif depth == 0: out.append(ch)
+    return " ".join(out)
+
+def _split_top(text, sep, first_only=False, exprs=False):
+    """split at `sep` outside brackets, angle brackets, strings and comments (`::` and `->` are not separators / brackets).
+    exprs: the text is a list of expressions, where `<` opens angle brackets only as a turbofish `::<`"""
+    toks = scan(text)
+    out, depth, angle, last = [], 0, 0, 0
+    for i, (kind, a, b) in enumerate(toks):
+        if kind != "punct": continue
+        ch = text[a]
+        if ch in "([{": depth += 1
+        elif ch in ")]}": depth -= 1
+        elif ch == "<" and (not exprs or text[max(0, a - 2):a] == "::"): angle += 1
+        elif ch == ">" and angle > 0 and not (a > 0 and text[a - 1] in "-="): angle -= 1
+        elif ch == sep and depth == 0 and angle == 0:
+            if sep == ":" and ((a + 1 < len(text) and text[a + 1] == ":") or (a > 0 and text[a - 1] == ":")): continue
+            out.append(text[last:a]); last = b
+            if first_only: break
+    out.append(text[last:])
+    return out
+
 class Between(Edit):
     """replace the text from the first occurrence of `start` through the first occurrence of `end` after it
     (both inclusive) by `new`: a hole whose dropped text is identified by its two ends and its sha256"""
@@ -160,6 +328,26 @@ class DropMacros(Edit):
         return text
     def describe(self):
         return f"logging macros dropped: {self.n} x {'/'.join(self.names)}!(..)"
+
+class DebugAsserts(Edit):
+    """`debug_assert!(c);` is written out as what it is in a debug build, `if !(c) { panic!() }`: the verifier then has to show that
+    the assertion cannot fire (C07), instead of rejecting the macro"""
+    kind = "rewrite"
+    def __init__(self): self.n = 0
+    def apply(self, text, ctx):
+        src = Source(text, ctx); code = src.code; cuts = []
+        for ci, k in enumerate(code):
+            if src.toks[k][0] == "ident" and src.s(k) == "debug_assert" and ci + 2 < len(code) and src.s(code[ci+1]) == "!" and src.s(code[ci+2]) == "(":
+                close = src.match[code[ci+2]]; cj = code.index(close)
+                inner = text[src.toks[code[ci+2]][2]:src.toks[close][1]]
+                cond = _split_top(inner, ",", exprs=True)[0].strip()
+                end = src.toks[code[cj+1]][2] if cj + 1 < len(code) and src.s(code[cj+1]) == ";" else src.toks[close][2]
+                cuts.append((src.toks[k][1], end, f"if !({cond}) {{ panic!(\"debug_assert\"); }}"))
+        self.n = len(cuts)
+        for a, b, new in sorted(cuts, reverse=True):
+            text = text[:a] + new + text[b:]
+        return text
+    def describe(self): return f"rewrite: {self.n} x debug_assert!(c) written out as `if !(c) {{ panic!() }}`"
 
 class After(Edit):
     """insert ghost/proof text after the anchor text. optional=True (proof hints only): a missing anchor skips the hint"""
